@@ -290,14 +290,14 @@ def r19h(ctx):
 
 
 def run(ctx):
-    r19a(ctx)
-    r19b(ctx)
-    r19c(ctx)
-    r19d(ctx)
-    r19e(ctx)
-    r19f(ctx)
-    r19g(ctx)
-    r19h(ctx)
+    ctx.guard(r19a)
+    ctx.guard(r19b)
+    ctx.guard(r19c)
+    ctx.guard(r19d)
+    ctx.guard(r19e)
+    ctx.guard(r19f)
+    ctx.guard(r19g)
+    ctx.guard(r19h)
 
 
 SELFTEST = {
